@@ -358,11 +358,13 @@ EXTRA = {
            "(Trait('yes', {...}, List)) are in the grid; the whole lattice is assigned a second time in "
            "reverse order on the same trait definition and must give the same verdicts and stored results "
            "(history independence)."
-           ' Seventh wave: the legacy handler classes behind Trait(...) (coercing, casting, instance by class and by name, enumeration, compounds of them), validated Property(trait) attributes with a setter, tuple-subclass and byte-swapped array values.',
+           ' Seventh wave: the legacy handler classes behind Trait(...) (coercing, casting, instance by class and by name, enumeration, compounds of them), validated Property(trait) attributes with a setter, tuple-subclass and byte-swapped array values.'
+           ' The moved-bound pass distinguishes excluded bounds (known finding).',
     "C02": " One-off exhaustive cells: names governed by one wildcard declaration with static handlers "
            "(all histories up to length 3 over 3 names x 2 values on two instances); two instances carrying "
            "a same-named instance trait with different comparison modes. The last bulk route is part of the "
-           "state key (trait_setq switches a hidden per-object mode). Values include numpy arrays (a != without a truth value); @observe methods carrying a magic name.",
+           "state key (trait_setq switches a hidden per-object mode). Values include numpy arrays (a != without a truth value); @observe methods carrying a magic name."
+           ' Cells for listener objects attached with add_trait_listener (their _name_changed / _name_fired / _anytrait_changed methods, with and without a prefix).',
     "C03": " Validation must leave the caller's own tuple alone; cells with a Map whose mapping is changed "
            "after the trait was defined."
            ' Legacy handler classes behind Trait(...) are compared like the trait types (their compiled descriptor against their own Python validate), including a by-name TraitInstance alone, in a compound and as a Tuple member; tuple subclasses are among the values.',
@@ -388,14 +390,17 @@ EXTRA = {
            " A default named by another trait (dynamic Range value='dv'): a never-assigned attribute keeps the default it was first read with; small groups of interdependent traits are explored one level deeper; the model's record of first reads is part of the state key.",
     "C11": " A variant attaches and detaches the deferring attribute's handlers during the history; a "
            "history ending in a refused write is kept apart from the unchanged state. Kinds with a Property-valued delegate / prototype attribute; all instances are of a subclass that adds nothing."
-           ' Two more worlds defer onto List / Dict / Set / Event(Int) targets (in-place mutation on either side, whole-value assignment, validated payloads: handlers of the deferring attribute only ever see values); a target declared by a wildcard only; introspection calls (base_trait, trait, validate_trait, traits, trait_get) are events and must change nothing.',
+           ' Two more worlds defer onto List / Dict / Set / Event(Int) targets (in-place mutation on either side, whole-value assignment, validated payloads: handlers of the deferring attribute only ever see values); a target declared by a wildcard only; introspection calls (base_trait, trait, validate_trait, traits, trait_get) are events and must change nothing.'
+           ' The legacy Delegate() spelling with positional options is among the attributes.',
     "C12": " Also a cached property whose value is None most of the time and a dependency holding values "
-           "whose == raises AttributeError. A property observed through another property.",
+           "whose == raises AttributeError. A property observed through another property."
+           " A subclass's cached getter that builds on the inherited cached getter (nested fill of one cache slot).",
     "C13": " One-off cells: a trait_added listener adds an instance trait for the very name whose first "
            "access announced it (that access is already governed by the instance trait); the _items "
            "companion of a removed List instance trait is compared with a control instance that never had "
            "one. The instance-trait tables are part of the state key. Mapped instance traits and their shadow names."
-           ' Instance traits without a handler object (untyped Property) and the result of remove_trait are checked explicitly.',
+           ' Instance traits without a handler object (untyped Property) and the result of remove_trait are checked explicitly.'
+           ' The base class may gain a mapped trait at run time (its shadow must not govern longer names).',
     "C14": " A trait nobody read before the copy, with a default that differs per computation, must read "
            "the same on original and copy; round-tripped definitions are also driven through base_trait, "
            "validate_trait and clone_traits. A prototyped attribute declared before its prototype holder; a list that may not be empty."
@@ -403,7 +408,8 @@ EXTRA = {
     "C16": " One-off cells: a list of extended names registered and removed in every grouping and order "
            "(5 x 5 forms). Cells for Dict links with trait names ending in letters of '_items', for a removal naming an unregistered handler, for handler signatures with 0..4 arguments."
            " Cells: a re-assigned '.' link is reported to handlers of every signature where observe reports it (from None and from an object), names with blanks around them, one handler under two names sharing a link with one registration removed.",
-    "C17": " Late registration also of a class with the protocol an offer adapts from.",
+    "C17": " Late registration also of a class with the protocol an offer adapts from."
+           ' A universe with a mixin in front of the hierarchy plus a virtual base (three single-step candidates).',
     "C18": " Two further cells: a default replaced by post_setattr during the first read; an "
            "AttributeError in a default method with warnings turned into errors. Cells for malformed factory arguments, star-prefix delegates with str-subclass names, a tuple whose later member raises, property_fields of round-tripped property definitions."
            ' Cell for a delegate that is a temporary object handed out by a property (write-through Delegate).',
@@ -415,7 +421,8 @@ EXTRA = {
            "linked in all 15 style combinations (all histories up to length 2 / 3 over 12 assignments); the "
            "style of a link changed by a second sync_trait call without removal. A history ending in a "
            "refused push is kept apart from the unchanged state; thorough uses the reduced menu at its "
-           "last level. A list trait whose name contains '_items'.",
+           "last level. A list trait whose name contains '_items'."
+           ' Cells in which a partner is collected while a change is being propagated.',
 }
 for _k, _v in EXTRA.items():
     CHECKS[_k]["text"] += _v
